@@ -70,6 +70,7 @@ def generate(seed, tier):
             "n_iter": rng.randint(2, 12 if tier == "quick" else 40),
             "rewire_at": rng.choice([None, None, 1, 2, 3]), "rewire_seed": rng.randint(0, 10**6),
             "w_scale": rng.choice([None] * 5 + [1e-9, 1e-6, 1e4]),
+            "hard_u": rng.choice([None] * 6 + ["int", "counts", "float32"]),
             "neighbours": rng.sample(["opposite", "bare", "rejected"], rng.randint(1, 3)) if rng.random() < 0.3 else None}
 
 
@@ -342,6 +343,16 @@ def execute(case):
             ms = HyMMSBM(u=np.array(case["u"], dtype=float), w=ws, max_hye_size=case["D"])
             _check_closed_forms(ms, np.array(case["u"]), ws, N, case["D"], stats, f"supplied parameters, w scaled by {case['w_scale']}")
             stats["scaled_parameter_states"] = stats.get("scaled_parameter_states", 0) + 1
+        if case.get("hard_u"):
+            # hard memberships the way users write them: a one-hot (or 0/1/2 count) matrix of INTEGER dtype (or float32)
+            lab = random.Random(case["seed"] ^ 0x5A5A).choices(range(K), k=N)
+            ui = np.eye(K, dtype=int)[lab] if case["hard_u"] != "counts" else np.eye(K, dtype=int)[lab] + np.eye(K, dtype=int)[lab[::-1]]
+            if case["hard_u"] == "float32":
+                ui = ui.astype(np.float32)
+            wf = np.array(case["w"], dtype=float)
+            mh = HyMMSBM(u=ui.copy(), w=wf, max_hye_size=case["D"])
+            _check_closed_forms(mh, ui.astype(float), wf, N, case["D"], stats, f"hard memberships of dtype {ui.dtype}")
+            stats["hard_membership_states"] = stats.get("hard_membership_states", 0) + 1
     except Violation as v:
         return {"violation": {"sig": v.sig, "detail": v.detail}, "digest": "violation:" + v.sig, "stats": {},
                 "sample": {"case": case}}
